@@ -150,7 +150,30 @@ class LiteralEvaluator:
 			結合結果
 		"""
 		quote = left[0]
-		return f'{quote}{left[1:-1]}{right[1:-1]}{quote}'
+		right_body = right[1:-1] if right[0] == quote else self._requote(right[1:-1], right[0], quote)
+		return f'{quote}{left[1:-1]}{right_body}{quote}'
+
+	def _requote(self, body: str, from_quote: str, to_quote: str) -> str:
+		"""引用符の変更に合わせて文字列内の引用符のエスケープを付け替え
+
+		Args:
+			body: 文字列(引用符を除く)
+			from_quote: 変更前の引用符
+			to_quote: 変更後の引用符
+		Returns:
+			変換後の文字列
+		"""
+		new_body = ''
+		index = 0
+		while index < len(body):
+			if body[index] == '\\' and index + 1 < len(body):
+				new_body += body[index + 1] if body[index + 1] == from_quote else body[index:index + 2]
+				index += 2
+			else:
+				new_body += f'\\{to_quote}' if body[index] == to_quote else body[index]
+				index += 1
+
+		return new_body
 
 	def on_argument(self, node: defs.Argument, label: Evaluator.Value, value: Evaluator.Value) -> Evaluator.Value:
 		return value
